@@ -55,20 +55,42 @@ type step struct {
 }
 
 type limiter struct {
-	rl    any
-	when  func() time.Duration
-	delta int64 // the interval the property speaks about
-	wait  int64
+	rl     any
+	when   func() time.Duration
+	forget func() // the real Forget of the limiter (nil: called by somebody else, see around)
+	delta  int64  // the interval the property speaks about
+	wait   int64
+}
+
+// around runs f (something that calls the real limiter's Forget, or nothing) with `last` set
+// as seen from virtual instant a, and returns the virtual `last` afterwards: unchanged when f
+// left the field alone, else what f wrote, seen from a.
+func (l *limiter) around(vlast, a int64, f func()) int64 {
+	now0 := time.Now()
+	set := time.Time{}
+	if vlast != farPast {
+		set = now0.Add(time.Duration(vlast - a))
+	}
+	workqueue.VerifLimiterSetLast(l.rl, set)
+	f()
+	last, _ := workqueue.VerifLimiterLast(l.rl)
+	if last.Equal(set) {
+		return vlast
+	}
+	if last.IsZero() {
+		return farPast
+	}
+	return a + int64(last.Sub(now0))
 }
 
 func newLimiter(in input) *limiter {
 	switch in.Kind {
 	case kReload:
 		rl := workqueue.ReloadHAProxyRateLimiter(time.Duration(in.IntervalNs))
-		return &limiter{rl: rl, when: func() time.Duration { return rl.When(nil) }, delta: in.IntervalNs}
+		return &limiter{rl: rl, when: func() time.Duration { return rl.When(nil) }, forget: func() { rl.Forget(nil) }, delta: in.IntervalNs}
 	case kReconcil:
 		rl := workqueue.IngressReconcilerRateLimiter[bool](in.Rate, time.Duration(in.WaitNs))
-		return &limiter{rl: rl, when: func() time.Duration { return rl.When(false) },
+		return &limiter{rl: rl, when: func() time.Duration { return rl.When(false) }, forget: func() { rl.Forget(false) },
 			delta: int64(time.Duration(float64(time.Second) / in.Rate)), wait: in.WaitNs}
 	}
 	panic("unknown kind " + in.Kind)
